@@ -3,9 +3,11 @@
 import json, os, subprocess, sys, re
 ROOT = os.path.dirname(os.path.dirname(os.path.abspath(__file__)))
 only = sys.argv[1:]
+# results are always recorded in /verif/seeded, also when this runs from a vp-run snapshot of /verif
+SEEDED = "/verif/seeded" if os.path.isdir("/verif/seeded") else os.path.join(ROOT, "seeded")
 rows = []
-for k in sorted(os.listdir(os.path.join(ROOT, "seeded"))):
-    d = os.path.join(ROOT, "seeded", k); mp = os.path.join(d, "meta.json")
+for k in sorted(os.listdir(SEEDED)):
+    d = os.path.join(SEEDED, k); mp = os.path.join(d, "meta.json")
     if not os.path.exists(mp): continue
     if only and k not in only: continue
     meta = json.load(open(mp)); checks = meta["checks_run"][0].split()[2:]
